@@ -19,6 +19,7 @@ mod genmeta;
 mod scen_c13;
 mod scen_c14;
 mod scen_c16;
+mod scen_bent;
 mod scen_c17;
 mod scen_dmg;
 mod scen_meta;
@@ -53,6 +54,7 @@ pub fn lookup(scen: &str) -> Option<Scenario> {
         "c09big" => scen_rt::run_c09_big,
         "rtsweep" => scen_rt::run_short_sweep,
         "synth" => scen_synth::run,
+        "bent" => scen_bent::run,
         "c16sweep" => scen_c16::run_sweeps,
         "c08" => scen_wr::run_c08,
         "c15" => scen_wr::run_c15,
